@@ -83,6 +83,24 @@ fn vec_for_each_mut<T, F: FnMut(&mut T)>(v: &mut Vec<T>, f: F)
     ensures final(v)@.len() == old(v)@.len(),
         forall|i: int| 0 <= i < old(v)@.len() ==> exists|x: &mut T| *x == old(v)@[i] && *final(x) == #[trigger] final(v)@[i] && call_ensures(f, (x,), ()),
 { v.iter_mut().for_each(f) }
+// R28/R30: `v.iter_mut().find(p)` and `for (k, v) in map.iter_mut() { BODY }` (== map.iter_mut().for_each(|(k, v)| BODY)):
+// BTreeMap::iter_mut has no model in the installed vstd and the orphan rule forbids adding one, so the loop is read
+// as a call of this wrapper with the loop body, verbatim, as the closure
+#[verifier::external_body]
+fn vec_find_mut<'a, T, P: FnMut(&&mut T) -> bool>(v: &'a mut Vec<T>, p: P) -> (r: Option<&'a mut T>)
+    requires forall|x: &mut T| call_requires(p, (&x,)),
+    ensures
+        r is None ==> final(v)@ == old(v)@ && forall|i: int| 0 <= i < old(v)@.len() ==> exists|x: &mut T| *x == #[trigger] old(v)@[i] && call_ensures(p, (&x,), false),
+        r is Some ==> exists|i: int| 0 <= i < old(v)@.len() && *r->0 == #[trigger] old(v)@[i] && final(v)@ == old(v)@.update(i, *final(r->0))
+            && (exists|x: &mut T| *x == old(v)@[i] && call_ensures(p, (&x,), true))
+            && (forall|j: int| 0 <= j < i ==> exists|x: &mut T| *x == #[trigger] old(v)@[j] && call_ensures(p, (&x,), false)),
+{ v.iter_mut().find(p) }
+#[verifier::external_body]
+fn btree_for_each_mut<K, V, F: FnMut(&K, &mut V)>(m: &mut BTreeMap<K, V>, mut f: F)
+    requires forall|k: K, v: &mut V| old(m)@.contains_key(k) && *v == old(m)@[k] ==> call_requires(f, (&k, v)),
+    ensures final(m)@.dom() == old(m)@.dom(),
+        forall|k: K| old(m)@.contains_key(k) ==> exists|v: &mut V| *v == old(m)@[k] && *final(v) == #[trigger] final(m)@[k] && call_ensures(f, (&k, v), ()),
+{ for (k, v) in m.iter_mut() { f(k, v) } }
 // R29: `vec == *slice` (PartialEq<[u8]> for Vec<u8>): element-wise comparison
 #[verifier::external_body]
 fn vec_eq_slice(a: &Vec<u8>, b: &[u8]) -> (r: bool) ensures r == (a@ == b@) { *a == *b }
@@ -170,6 +188,15 @@ proof fn lemma_filter_distinct<E: Display>(s: Seq<Observer<E>>, p: spec_fn(Obser
         }
     }
 }
+// C15: an acknowledgement from the same endpoint for the most recent notification's message id resets that observer's
+// count (first such observer of each resource); acknowledgements with another endpoint or message id change nothing
+pub open spec fn ack_matches<E: Display>(o: Observer<E>, ep: E, mid: u16) -> bool { o.message_id == Some(mid) && o.endpoint == ep }
+pub open spec fn ack_reset<E: Display>(o: Observer<E>) -> Observer<E> { Observer { endpoint: o.endpoint, token: o.token, unacknowledged_messages: 0, message_id: None } }
+pub open spec fn acked<E: Display>(old_s: Seq<Observer<E>>, new_s: Seq<Observer<E>>, ep: E, mid: u16) -> bool {
+    ||| (exists|i: int| 0 <= i < old_s.len() && #[trigger] ack_matches(old_s[i], ep, mid) && (forall|j: int| 0 <= j < i ==> !ack_matches(#[trigger] old_s[j], ep, mid))
+            && new_s == old_s.update(i, ack_reset(old_s[i])))
+    ||| ((forall|i: int| 0 <= i < old_s.len() ==> !ack_matches(#[trigger] old_s[i], ep, mid)) && new_s == old_s)
+}
 // data-structure invariant (C14): at most one observer per endpoint on each resource
 pub open spec fn distinct_eps<E: Display>(s: Seq<Observer<E>>) -> bool {
     forall|i: int, j: int| 0 <= i < j < s.len() ==> (#[trigger] s[i]).endpoint != (#[trigger] s[j]).endpoint
@@ -202,7 +229,7 @@ def build(repo):
     u.chunks.append(('code', 'log.rs:1-%d' % s.text.count('\n'), s.text))
     u.items('observe.rs', 'const DEFAULT_UNACKNOWLEDGED_LIMIT', 'pub struct Observer<Endpoint: Display>', 'pub struct Resource<Endpoint: Display>',
             'pub struct Subject<Endpoint: Display + PartialEq>')
-    u.impl_fns('observe.rs', S, ['register', 'deregister', 'resource_changed'])
+    u.impl_fns('observe.rs', S, ['register', 'deregister', 'resource_changed', 'acknowledge'])
     u.assemble()
     u.rule('R28:iter-position', r'((?:\w+\s*\.\s*)*\w+)\s*\.iter\(\)\s*\.position\(',
            lambda m: 'vec_position(&%s, ' % re.sub(r'\s+', '', m.group(1)), 2)
@@ -349,5 +376,28 @@ def build(repo):
                         }
                     }
                 }''')
+    # ---- acknowledge -----------------------------------------------------------------------------------
+    AK = (S, 'acknowledge')
+    u.replace_in(AK, 'R30:for-iter_mut', r'for \(resource_path, resource\) in self\.resources\.iter_mut\(\) \{',
+                 '''btree_for_each_mut(&mut self.resources, |resource_path: &String, resource: &mut Resource<Endpoint>|
+                requires distinct_eps(resource.observers@), counts_ok(resource.observers@)
+                ensures final(resource).sequence == old(resource).sequence,
+                    acked(old(resource).observers@, final(resource).observers@, *observer_endpoint, message_id),
+                    distinct_eps(final(resource).observers@), counts_ok(final(resource).observers@)
+            {
+            let ghost s0 = resource.observers@;''')
+    # the loop's closing brace becomes the end of the closure and of the call
+    s_, p_, bo_, bc_ = u._fn_span(AK)
+    close = u.text.rfind('}', bo_, bc_)          # last '}' inside the fn body = end of the former loop
+    u.text = u.text[:close] + '});' + u.text[close + 1:]
+    u.rule('R28:iter_mut-find', r'((?:\w+\s*\.\s*)*\w+)\s*\.iter_mut\(\)\s*\.find\(', lambda m: 'vec_find_mut(&mut %s, ' % re.sub(r'\s+', '', m.group(1)), 1)
+    u.closure(AK, r'\|x\|', 'x: &&mut Observer<Endpoint>', 'b: bool', 'ensures b == ack_matches(*old(*x), *observer_endpoint, message_id)')
+    u.contract(AK, '''        requires request.source is Some, ep_ok::<Endpoint>(), wf(*old(self))
+        ensures
+            final(self).resources@.dom() == old(self).resources@.dom(),
+            forall|p: String| old(self).resources@.contains_key(p) ==> (#[trigger] final(self).resources@[p]).sequence == old(self).resources@[p].sequence
+                && acked(old(self).resources@[p].observers@, final(self).resources@[p].observers@, request.source->0, request.message.header.message_id),
+            final(self).unacknowledged_limit == old(self).unacknowledged_limit,
+            wf(*final(self))''')
     u.finish(HEAD)
     return u
